@@ -294,7 +294,52 @@ def rule_engine_consulted(ctx):
 
 from .c13 import rule_no_implicit_tx_calls  # noqa: E402  (a failed statement must leave an open transaction as it was)
 
+def rule_exploded_statements_guarded(ctx):
+    """C07.k: a command fakesnow splits into several engine statements (MERGE) is refused like any other when it names a table
+    without the context that would complete the name: `MERGE INTO d9.s9.tgt USING src` needs a current database (90105) and a
+    current schema (90106) for `src`, and nothing of it reaches the engine."""
+    from ..execmodel import make_session
+    from ..interp import explore
+    from .c12 import MergeHooks
+
+    prog = ctx.prog
+    n = 0
+    for dbs, schs, want in ((False, False, (90105, "22000")), (True, False, (90106, "22000"))):
+        hooks = []
+
+        def fac():
+            h = MergeHooks(None, "SELECT")
+            hooks.append(h)
+            return h
+
+        def run(I, dbs=dbs, schs=schs):
+            duck, conn, cur = make_session(dbs, schs)
+            return I.call(I.getattr(cur, "execute"), [Sym("MERGE_COMMAND", typ="str", truthy=True), Const(None)], {}, None)
+
+        for p, h in zip(explore(prog, fac, run, max_paths=64), hooks):
+            if not h.parsed:
+                continue
+            n += 1
+            exc = p.value if p.outcome == "raise" else None
+            got = (_kw(exc, "errno"), _kw(exc, "sqlstate")) if exc is not None else None
+            what = f"MERGE with an unqualified source, database_set={dbs} schema_set={schs}"
+            ok = exc is not None and exc.cls.endswith("errors.ProgrammingError") and got == want and not h.calls
+            ctx.ob("C07.k", f"{what}: refused with {want} before any engine call", ok, "fakesnow/cursor.py", str(got))
+            if not ok:
+                if exc is None:
+                    msg = (f"{what} is not refused: {len(h.calls)} generated statements run without a current "
+                           f"{'database' if want[0] == 90105 else 'schema'} (the engine answers with its own 'table does not exist', or resolves "
+                           f"the name in its default schema and modifies data)")
+                elif h.calls:
+                    msg = f"{what}: the refusal comes after {len(h.calls)} engine call(s)"
+                else:
+                    msg = f"{what} is refused with {exc.cls.rsplit('.', 1)[-1]}{got} instead of ProgrammingError{want}"
+                ctx.violation("C07.k", "cursor", "FakeSnowflakeCursor.execute", what, "fakesnow/cursor.py", msg)
+    ctx.floor("C07.k exploded-command traces", n, 2)
+
+
 RULES = [
+    ("C07.k", rule_exploded_statements_guarded, ("quick", "thorough")),
     ("C07.g", rule_no_implicit_tx_calls, ("quick", "thorough")),
     ("C07.a", rule_table, ("quick", "thorough")),
     ("C07.b", rule_sqlstate, ("quick", "thorough")),
